@@ -494,6 +494,15 @@ func (x *Exec) checkPost(st *St, fr *Frame, v *Val, names map[string]*Val) {
 			})
 		}
 	}
+	// a WaitGroup made here on which goroutines were started has been waited for before this body returns (otherwise
+	// the body's deferred close of the stage's channels runs while workers may still send on them)
+	if sp, wt := x.W.Fields["sync.WaitGroup.spawned"], x.W.Fields["sync.WaitGroup.waited"]; sp != nil && wt != nil {
+		for _, r := range st.wgs {
+			x.emit(st, oblTemplate{kind: "exit", label: "waited", props: []string{"C12"}, pos: "",
+				clause: "a WaitGroup made in this body on which goroutines were started has been waited for on this return path",
+				name:   fi.Key + "/exit#waited"}, nil, Implies(Cmp(">", Select(st.field(sp), r), IntLit(0)), Select(st.field(wt), r)))
+		}
+	}
 	x.assertWF(st, "exit", "")
 	if x.ncanary < 64 {
 		x.ncanary++
